@@ -311,6 +311,7 @@ func (c *Conn) processEncryptedClientHello(h *clientHello, isRetry bool) (*clien
 		}
 		// Appendix B. Linear-time Outer Extension Processing
 		p := 0
+		referenced := make(map[uint16]bool)
 		for !want.Empty() {
 			var extType uint16
 			if !want.ReadUint16(&extType) {
@@ -319,6 +320,12 @@ func (c *Conn) processEncryptedClientHello(h *clientHello, isRetry bool) (*clien
 			if extType == 0xfe0d || extType == 0xfd00 {
 				return nil, fmt.Errorf("%w: ech_outer_extensions contains 0x%x", ErrIllegalParameter, extType)
 			}
+			// A type cannot be referenced more than once, even when the
+			// ClientHelloOuter (illegally) repeats the extension.
+			if referenced[extType] {
+				return nil, fmt.Errorf("%w: ech_outer_extensions repeats 0x%x", ErrIllegalParameter, extType)
+			}
+			referenced[extType] = true
 			for p < len(h.Extensions) && h.Extensions[p].Type != extType {
 				p++
 			}
